@@ -236,6 +236,15 @@ def cmp(op, a, b):
     if a[0] == "const" and b[0] == "const" and op in ("Eq", "NotEq", "Is", "IsNot") and (a[1] is None or b[1] is None or type(a[1]) is type(b[1])):
         same = a[1] == b[1] and (a[1] is None) == (b[1] is None)
         return TRUE if same == (op in ("Eq", "Is")) else FALSE
+    if op in ("In", "NotIn") and a[0] == "const" and b[0] in ("tuple", "list") and all(x[0] == "const" for x in b[1]):
+        # membership of a constant in a literal collection of constants
+        try:
+            found = any(x[1] == a[1] and type(x[1]) is type(a[1]) for x in b[1])
+            return TRUE if found == (op == "In") else FALSE
+        except Exception:
+            pass
+    if op in ("In", "NotIn") and a[0] == "const" and b[0] == "const" and isinstance(a[1], str) and isinstance(b[1], str):
+        return TRUE if (a[1] in b[1]) == (op == "In") else FALSE
     if op in ("Eq", "NotEq", "Is", "IsNot"):
         # comparing a case distinction with a constant: compare case by case
         for x, y in ((a, b), (b, a)):
@@ -393,6 +402,7 @@ class Evaluator:
         self.unroll = False       # unroll `for` statements over statically known iterables (no break/continue/return inside)
         self.assume = None        # optional callback: condition term -> True / False / None (partial evaluation)
         self.self_class = None    # qualified class name: `self.method(...)` of that class may be inlined
+        self.recv_classes = {}    # receiver term -> qualified class name: `<receiver>.method(...)` may be inlined with self := receiver
 
     def _decide(self, c):
         """Decide a condition term under the current assumptions (None = unknown)."""
@@ -719,6 +729,7 @@ class Evaluator:
                 a = self._block(s.orelse, a, pc, res)
             out = a
             single_assign = len(s.body) == 1 and isinstance(s.body[0], ast.Assign) and all(isinstance(t_, ast.Name) for t_ in s.body[0].targets)
+            fell_through = []
             for i, h in enumerate(s.handlers):
                 # `try: x = <expr>`: if the expression raised, the assignment did not happen and x keeps its old value
                 henv = dict(env) if single_assign else self._havoc(env, s.body, "T%d" % s.lineno)
@@ -726,12 +737,17 @@ class Evaluator:
                     henv[h.name] = ("sym", h.name)
                 ht = self._e(h.type, env, pc, res) if h.type is not None else NONE
                 b = self._block(h.body, henv, pc + ((("op", "except", (ht,)), True),), res)
+                if b is not None:
+                    fell_through.append(("op", "except", (ht,)))
                 out = self._join(("op", "except", (ht,)), b, out) if out is not None or b is not None else None
             if s.finalbody:
                 if out is None:
                     self._block(s.finalbody, self._havoc(env, s.body, "F%d" % s.lineno), pc, res)
                 else:
                     out = self._block(s.finalbody, out, pc, res)
+            if a is None and out is not None and len(fell_through) == 1 and _leaves_block(s.body):
+                # `try: return X` / `except E: pass`: the rest of the block runs only when E was raised
+                self._pending_pc = ((fell_through[0], True),)
             return out
         if isinstance(s, (ast.FunctionDef, ast.AsyncFunctionDef)):
             res.nested[s.name] = (s, dict(env))
@@ -1202,6 +1218,15 @@ class Evaluator:
                 t = ("nt", tname, tuple(vals))
                 res.events.append(Event("call", ("call", f, tuple(args), tuple(kws)), n, pc, extra=t))
                 return t
+        # methods of a string constant with constant arguments
+        if f[0] == "attr" and f[1][0] == "const" and isinstance(f[1][1], str) and not kws \
+                and f[2] in ("startswith", "endswith", "lower", "upper", "strip", "lstrip", "rstrip", "isdigit", "isalpha", "count", "find") \
+                and all(a[0] == "const" and isinstance(a[1], (str, tuple)) for a in args):
+            try:
+                v = getattr(f[1][1], f[2])(*[a[1] for a in args])
+                return (TRUE if v else FALSE) if isinstance(v, bool) else (num(v) if isinstance(v, int) else ("const", v))
+            except Exception:
+                pass
         if fname in ("any", "all", "sum", "len", "list", "tuple") and len(args) == 1 and not kws:
             arg0 = args[0]
             if arg0[0] not in ("list", "tuple") and not (arg0[0] == "op" and arg0[1] == "filtered"):
@@ -1303,6 +1328,34 @@ class Evaluator:
                         for k, v in back.items():
                             if isinstance(k, tuple) and _root_of(k)[0] == "self":
                                 env[k] = v
+                        ev.extra = r
+                        return r
+        if target is None and self.self_class and self.project is not None and f[0] == "attr" and f[2] not in self.no_inline \
+                and f[1] in (("sym", "cls"), ("sym", "self"), ("sym", self.self_class.rsplit(".", 1)[-1])):
+            # classmethods / staticmethods of the class under analysis: cls.helper(..), self.helper(..), Class.helper(..)
+            cand = self.project.funcs.get(self.self_class + "." + f[2])
+            if cand is not None and cand.qual not in self._stack and not _is_generator(cand.node):
+                decos = [(dotted(d) or "") for d in cand.node.decorator_list]
+                margs = None
+                if any(d.endswith("classmethod") for d in decos):
+                    margs = [("sym", "cls")] + list(args)
+                elif any(d.endswith("staticmethod") for d in decos):
+                    margs = list(args)
+                if margs is not None and self._depth < self.max_inline_depth and not any(a[0] == "star" for a in margs):
+                    r = self._inline(cand, margs, kws, res, pc)
+                    if r is not None:
+                        ev.extra = r
+                        return r
+        if target is None and self.recv_classes and self.project is not None and f[0] == "attr" and f[1] in self.recv_classes \
+                and f[2] not in self.no_inline:
+            cand = self.project.funcs.get(self.recv_classes[f[1]] + "." + f[2])
+            if cand is not None and cand.qual not in self._stack and not _is_generator(cand.node) \
+                    and not any((dotted(d) or "").endswith(("property", "contextmanager", "classmethod", "staticmethod")) for d in cand.node.decorator_list):
+                margs = [f[1]] + list(args)
+                if self._depth < self.max_inline_depth and not any(a[0] == "star" for a in margs):
+                    facts = {k: v for k, v in env.items() if isinstance(k, tuple)}
+                    r = self._inline(cand, margs, kws, res, pc, env=facts)
+                    if r is not None:
                         ev.extra = r
                         return r
         if target is None and self.inline_closures and f[0] == "sym" and f[1].startswith("<closure ") and f[1][9:-1] in self._closures \
@@ -1470,6 +1523,7 @@ class Evaluator:
         sub_ev.static_len = self.static_len
         sub_ev.unroll = self.unroll
         sub_ev.self_class = self.self_class
+        sub_ev.recv_classes = self.recv_classes
         sub_ev.ctx_module = func.module.name if hasattr(func, "module") else self.ctx_module
         for p in params:
             if p not in binding:
@@ -1498,8 +1552,14 @@ class Evaluator:
         # fold returns into an ite chain by their path conditions
         if len(r.returns) == 1:
             return r.returns[0][1]
-        out = r.returns[-1][1]
-        for pcx, v, _ in reversed(r.returns[:-1]):
+        rets = list(r.returns)
+        uncond = [i for i, (pcx, v, _) in enumerate(rets) if not [c for c in pcx if c[0] != "loop"]]
+        if len(uncond) == 1 and uncond[0] != len(rets) - 1:
+            # `try: return A` / `except E: pass` / `return B`: the unconditional return is the default, the later ones
+            # are taken under their own (exception) conditions
+            rets.append(rets.pop(uncond[0]))
+        out = rets[-1][1]
+        for pcx, v, _ in reversed(rets[:-1]):
             conds = [c for c in pcx if c[0] != "loop"]
             if not conds:
                 return None
